@@ -76,6 +76,10 @@ class Report:
         for v in kf:
             out.append("KNOWN-FINDING: property=%s %s %s" % (self.prop, v["key"], known_keys[v["key"]].get("what", v["msg"])))
         os.makedirs(os.path.join(EVDIR, "replay"), exist_ok=True)
+        # replay files describe the violations of THIS run only
+        import glob
+        for old in glob.glob(os.path.join(EVDIR, "replay", "%s-*.json" % self.prop)):
+            os.remove(old)
         for i, v in enumerate(new):
             rp = os.path.join(EVDIR, "replay", "%s-%d.json" % (self.prop, i))
             with open(rp, "w") as fh:
